@@ -82,6 +82,16 @@ pub fn script(seed: u64, shard: u64, case: u64, rounds: u64) -> Script {
         v
     };
     let rounds = rounds.max(2);
+    if rng.chance(1, 2) {
+        // preload: many small overlapping files and a reopen, which gives every one of them a level
+        // of its own; from then on compaction steps have to merge and collect instead of moving
+        let n = 13 + rng.usize(5);
+        for _ in 0..n {
+            steps.push(Step::Write(vec![(rng.pick(&keys).clone(), Some(val(&mut rng)))]));
+            steps.push(Step::Flush);
+        }
+        steps.push(Step::Reopen);
+    }
     for round in 0..rounds {
       // several flushes in a row put more than one file into L0: the next compaction merges
       let nflush = 1 + rng.usize(3);
@@ -265,6 +275,17 @@ pub fn run_child(args: &Args) {
                         std::process::exit(0);
                     }
                 };
+                // a tree that recovery built with a whole overlap component in one level (the
+                // known C01 finding) makes later compactions assert: the script ends here, the
+                // steps so far stand
+                let mut h = History::attach(Path::new(&root), sc.cfg.clone(), sc.keys.clone());
+                h.levels_override = Some(kvs.verif_tree().verif_levels());
+                if let Err(v) = h.check_structure(true) {
+                    acks.note(&format!("done {i}"));
+                    acks.note(&format!("script-ends-early structure {}", v.sig));
+                    drop(kvs);
+                    std::process::exit(0);
+                }
             }
         }
         if std::env::var("VH_TRACE_LEVELS").is_ok() {
@@ -341,16 +362,25 @@ pub fn run_recover(args: &Args) {
     let enc = |v: &Vec<(Vec<u8>, Option<Vec<u8>>)>| -> serde_json::Value { json!(v.iter().map(|(k, v)| json!([hex(k), v.as_ref().map(|x| hex(x))])).collect::<Vec<_>>()) };
     let mut res = serde_json::Map::new();
     let verdict = guarded(|| -> Result<(), String> {
-        let kvs = open_store(&sc.cfg, &root).map_err(|e| format!("open: {e}"))?;
-        let (state, scan) = read_all(&kvs, &probes)?;
+        // open through the stepper's history object so that the recovered tree can be given the
+        // structural check: the known recovery defect (a whole overlap component placed in one
+        // level) explains wrong scans and asserting compactions downstream
+        let mut h = History::attach(Path::new(&root), sc.cfg.clone(), sc.keys.clone());
+        h.crash_image = true;
+        h.open().map_err(|v| format!("open: {}", v.msg))?;
+        let mut known_structure = false;
+        if let Err(v) = h.check_structure(true) {
+            res.insert("structure".into(), json!({"sig": v.sig, "msg": v.msg}));
+            known_structure = true;
+        }
+        let kvs = h.kvs().ok_or("open gave no store")?;
+        let (state, scan) = read_all(kvs, &probes)?;
         res.insert("state".into(), enc(&state));
         res.insert("scan".into(), enc(&scan));
         let shape: Vec<usize> = kvs.verif_tree().verif_levels().iter().map(|l| l.len()).collect();
         res.insert("shape".into(), json!(shape));
-        drop(kvs);
+        h.close();
         // the ledger of the recovered directory (C04 at crash points)
-        let mut h = History::attach(Path::new(&root), sc.cfg.clone(), sc.keys.clone());
-        h.crash_image = true;
         let lr = h.check_ledger();
         if let Some(n) = h.cov.get("c04.crash_images_manifest_verifier_rejects") {
             res.insert("manifest_verifier_rejects".into(), json!([n, h.steps.last()]));
@@ -361,6 +391,11 @@ pub fn run_recover(args: &Args) {
         let kvs = open_store(&sc.cfg, &root).map_err(|e| format!("second open: {e}"))?;
         let (state2, scan2) = read_all(&kvs, &probes)?;
         res.insert("second_open_same".into(), json!(state2 == state && scan2 == scan));
+        if known_structure {
+            // maintenance on a tree whose levels overlap is not meaningful
+            drop(kvs);
+            return Ok(());
+        }
         // the recovered store accepts and serves a new write, and maintenance runs
         kvs.put(b"post-recovery", b"yes").map_err(|e| format!("put after recovery: {e}"))?;
         let mut tomb = false;
@@ -418,6 +453,7 @@ struct Recovered {
     second_open_same: Option<bool>,
     after_maintenance_same: Option<bool>,
     ledger: Option<(String, String)>,
+    structure: Option<(String, String)>,
     raw: serde_json::Value,
 }
 
@@ -448,6 +484,7 @@ fn recover(root: &Path, base: &[String], out: &Path) -> Result<Recovered, String
             second_open_same: None,
             after_maintenance_same: None,
             ledger: None,
+            structure: None,
             raw: json!({"stderr": tail}),
         });
     }
@@ -465,6 +502,7 @@ fn recover(root: &Path, base: &[String], out: &Path) -> Result<Recovered, String
         second_open_same: j["second_open_same"].as_bool(),
         after_maintenance_same: j["after_maintenance_same"].as_bool(),
         ledger: j.get("ledger").filter(|l| l.is_object()).map(|l| (l["sig"].as_str().unwrap_or("").to_string(), l["msg"].as_str().unwrap_or("").to_string())),
+        structure: j.get("structure").filter(|l| l.is_object()).map(|l| (l["sig"].as_str().unwrap_or("").to_string(), l["msg"].as_str().unwrap_or("").to_string())),
         raw: j,
     })
 }
@@ -500,6 +538,10 @@ struct Verdict {
 fn judge(sc: &Script, acks: &Acks, rec: &Recovered, what: &str) -> Option<Verdict> {
     let (_, kind, done) = last_step(acks);
     let during = if done { "between-steps".to_string() } else { format!("during-{kind}") };
+    if let Some((sig, msg)) = &rec.structure {
+        // one signature whatever the crash point: the defect is in what recovery builds
+        return Some(Verdict { sig: sig.clone(), msg: format!("the tree recovery built violates the level invariant: {msg}") });
+    }
     if rec.open != "ok" {
         let class = if rec.open.starts_with("panic") || rec.open.starts_with("died") { "recovery-panics" } else { "recovery-fails" };
         let code = if rec.open.starts_with("error:") { crate::e1::err_code(&rec.open) } else { rec.open.split(':').skip(1).collect::<Vec<_>>().join(":") };
@@ -631,7 +673,7 @@ pub fn run(args: &Args) {
                     // the fault-free image must satisfy the oracle as well
                     match recover(&run.root, &base, &out) {
                         Ok(rec) => {
-                            if let Some(vd) = judge(&sc, &run.acks, &rec, "no-fault") {
+                            if let Some(vd) = judge(&sc, &run.acks, &rec, "no-fault").filter(|_| focus != "C04") {
                                 rep.violation(&format!("e2:{focus}"), &vd.sig, json!({"case": case_no, "message": vd.msg, "config": sc.cfg.json()}));
                             }
                         }
